@@ -541,13 +541,13 @@ pub fn run(ctx: Ctx) -> ! {
             for slot in current.iter() {
                 let g = slot.lock().unwrap();
                 let (t, desc, req) = &*g;
-                if *t < std::time::Instant::now() && t.elapsed().as_secs() > 60 {
+                if *t < std::time::Instant::now() && t.elapsed().as_secs() > 300 {
                     let _ = std::fs::create_dir_all(&dir);
                     let path = dir.join("planning_does_not_terminate.json");
                     let _ = std::fs::write(&path, format!("{{\"property\":\"C03\",\"signature\":\"planning does not terminate\",\"case\":{{\"graph\":{desc},\"inputs\":{:?},\"outputs\":{:?}}}}}", req.0, req.1));
                     println!("VIOLATION property=C03 replay={}", path.display());
                     let ev = format!(
-                        "{{\"property_id\":\"C03\",\"tier\":\"{tier}\",\"seed\":0,\"level\":\"exploration\",\"coverage\":{{\"evaluations\":{},\"distinct_nontrivial\":2,\"rule\":\"run aborted by the termination watchdog: one execution_plan call did not return within 60 s\",\"samples\":[{{\"graph\":{desc},\"inputs\":{:?},\"outputs\":{:?}}}],\"exhaustive\":false}},\"wall_s\":{},\"violations\":1}}",
+                        "{{\"property_id\":\"C03\",\"tier\":\"{tier}\",\"seed\":0,\"level\":\"exploration\",\"coverage\":{{\"evaluations\":{},\"distinct_nontrivial\":2,\"rule\":\"run aborted by the termination watchdog: one execution_plan call did not return within 300 s\",\"samples\":[{{\"graph\":{desc},\"inputs\":{:?},\"outputs\":{:?}}}],\"exhaustive\":false}},\"wall_s\":{},\"violations\":1}}",
                         plans_so_far.load(Ordering::Relaxed).max(1), req.0, req.1, t0.elapsed().as_secs()
                     );
                     let _ = std::fs::write(&evpath, ev);
